@@ -87,6 +87,9 @@ func verifPlan(kind string, chunked bool, burst bool) zzverif.Plan {
 		return zzverif.Plan{Kind: "ok", Status: 503, Chunked: chunked, CT: "text/html", Body: "<html><body><h1>503 Service Unavailable</h1></body></html>"}
 	case "reset_after", "close_after":
 		return zzverif.Plan{Kind: kind, Status: 200, N: verifN, K: verifK, Chunked: chunked}
+	case "st099":
+		// a status code Go's client accepts and Go's server refuses to write
+		return zzverif.Plan{Kind: "raw", Raw: "HTTP/1.1 099 Odd\r\nContent-Type: text/plain\r\nContent-Length: 3\r\n\r\nodd"}
 	case "cut_noct":
 		// a 200 answer WITHOUT a Content-Type, cut after a few tokens: whatever ends up at the client is that prefix
 		return zzverif.Plan{Kind: "reset_after", Status: 200, N: verifN, K: verifK, Chunked: chunked, CT: "-"}
